@@ -41,7 +41,7 @@ func init() {
 			"every ctl option + 2 unknown (%d) x {%d generic values + per-option values: valid, negative, zero, huge, garbage} x phases 1-4 (thorough 1-5 and per-match), every variable name as ctl target; "+
 			"every registered operator + 2 unknown (%d) x %d argument shapes x {plain, negated} on 10 targets in phases 2 and 4 (@rbl and @inspectFile only constructed, never evaluated), the @rx arguments again with SecRxPreFilter On; "+
 			"every variable name + 4 other spellings x %d selector forms as rule target in all 5 phases (thorough also as SecRuleUpdateTargetById/ByTag argument); every transformation + 3 other spellings (%d), alone, doubled, quoted (thorough: all ordered pairs); "+
-			"%d roles x %d roles x %d strings for one string used twice (in one WAF; in two WAFs alive in one process); %d other engine contexts (DetectionOnly, Reject limit actions, body access Off, 16-byte in-memory limit with kept uploads, engine Off, tiny argument / JSON-depth limits) x a sample of the action and ctl classes; a sample of all classes with debug level 9 and the audit engine On (4 formats x 2 writers x 3 part sets x 5 disruptive actions x 5 phases); "+
+			"%d roles x %d roles x %d strings for one string used twice (in one WAF; in two WAFs alive in one process); %d other engine contexts (DetectionOnly, Reject limit actions, body access Off, 16-byte in-memory limit with kept uploads, engine Off, tiny argument / JSON-depth limits) x a sample of the action and ctl classes; a sample of all classes with debug level 9 and the audit engine On (4 formats x 2 writers x 5 part sets incl. the default ABCFHZ x 5 disruptive actions x 5 phases); "+
 			"thorough only: every text obtained from a hole text by deleting or duplicating one delimiter, one of %q. "+
 			"Every accepted configuration serves the battery of call sequences (quick %d, thorough %d: canonical GET/POST, bodies of limit-1/limit/limit+1 bytes, 0/1-byte writes, binary bytes in every field, multipart with file, JSON, XML, reversed order, bodies before headers, response only, io.Reader bodies, repeated calls, one-byte chunks, no calls, calls after Close, 600-byte fields of continuation bytes; Close twice after each). "+
 			"distinct_nontrivial = distinct accepted configurations (the ones that reached the transaction battery)",
